@@ -148,9 +148,22 @@ def break_ref(g, form):
 @st.composite
 def _cases(draw):
     prof = dict(gen.PROFILES["refs"], p_messages=0.6, p_hint=0.4, p_guidance=0.2, p_custom_bind=0.2, p_randomize=0.3,
-                p_repeat_count=0.5, p_multilang=0.3, p_choice_label_ref=0.2, p_entities=0.0, settings="some")
+                p_repeat_count=0.5, p_multilang=0.3, p_choice_label_ref=0.2, p_entities=0.0, settings="some", p_reuse_names=0.3)
     g = gen.G(draw, prof)
     form = gen.build_form(draw, prof, g=g)
+    if g.p("_", 0.25):
+        # the same text (with its references) on two rows at different places: every copy needs its own paths
+        donors = [n for n, _ in model.walk(form["nodes"]) if n["k"] != "x" and any("${" in v for k, v in n["c"].items() if k.split("::")[0] in ("label", "hint"))]
+        takers = [n for n, _ in model.walk(form["nodes"]) if n["k"] == "q" and any(k.split("::")[0] == "label" for k in n["c"])
+                  and n["c"].get("type", "").split(" ")[0] not in ("calculate", "hidden") and "calculation" not in n["c"] and "trigger" not in n["c"]]
+        if donors and takers:
+            a, b = g.pick(donors), g.pick(takers)
+            if a is not b:
+                for k in [k for k in b["c"] if k.split("::")[0] in ("label", "hint")]:
+                    del b["c"][k]
+                for k, v in a["c"].items():
+                    if k.split("::")[0] in ("label", "hint"):
+                        b["c"][k] = v
     c = {"form": form}
     if g.p("_", 0.12):
         br = break_ref(g, form)
